@@ -99,3 +99,10 @@ pub fn lemma_utf8_valid() {
     assert!(utf8_valid(s) == core::str::from_utf8(s).is_ok(), "utf8_valid agrees with core::str::from_utf8");
     kani::cover!(n == 4 && utf8_valid(s) && b[0] >= 0xF0, "a 4-byte sequence");
 }
+
+/// Loop-free stand-in for `String::from_utf8` for harnesses whose string bytes are ASCII by construction (C09: the
+/// policy URI of an OPN chunk): no validation loop, so the harness can keep `#[kani::unwind(2)]`.
+#[cfg(kani)]
+pub fn string_from_utf8_trusting(vec: Vec<u8>) -> Result<String, std::string::FromUtf8Error> {
+    Ok(unsafe { String::from_utf8_unchecked(vec) })
+}
